@@ -22,20 +22,55 @@ def e9_csv(ctx):
                        "stripped; delimiters between columns come from the row formatter")
     q = m.need_class("CSVFormatter")
     f = m.method(q, "print_LeafNode")
-    t = ast.unparse(f.node).replace(" ", "")
-    wr = [c for c in walk_no_nested(f.node) if isinstance(c, ast.Call) and isinstance(c.func, ast.Attribute) and c.func.attr == "writerow"]
-    src_ok = bool(wr) and ast.unparse(wr[0].args[0]).replace(" ", "") == "[node.object]" and "csv.writer(" in t
-    writes = [c for c in walk_no_nested(f.node) if isinstance(c, ast.Call) and isinstance(c.func, ast.Attribute)
-              and c.func.attr == "write" and dotted(c.func.value) == "printer"]
-    # the written name must derive from s.getvalue() with only trailing-newline slices
-    ok_flow = False
-    if len(writes) == 1 and isinstance(writes[0].args[0], ast.Name):
-        v = writes[0].args[0].id
-        defs = [s.value for s in walk_no_nested(f.node) if isinstance(s, ast.Assign) and isinstance(s.targets[0], ast.Name) and s.targets[0].id == v]
-        ok_flow = bool(defs) and all(
-            (isinstance(d, ast.Call) and isinstance(d.func, ast.Attribute) and d.func.attr == "getvalue") or
-            (isinstance(d, ast.Subscript) and dotted(d.value) == v and isinstance(d.slice, ast.Slice) and d.slice.lower is None
-             and isinstance(d.slice.upper, ast.UnaryOp)) for d in defs)
+    # print_LeafNode plus the helpers it calls (module-level functions of csv.py or methods of the formatter)
+    region = [(f, None)]
+    for c in walk_no_nested(f.node):
+        if isinstance(c, ast.Call):
+            h = None
+            if isinstance(c.func, ast.Name):
+                r_ = m.resolve_expr(f.module, c.func)
+                h = m.functions.get(r_[0][1]) if r_ and r_[0] and r_[0][0] == "func" else None
+            elif self_attr(c.func):
+                h = m.method(q, self_attr(c.func))
+            if h is not None and h.module == f.module and h.node is not f.node:
+                region.append((h, c))
+
+    def trailing_slice_of(e, v):
+        return isinstance(e, ast.Subscript) and dotted(e.value) == v and isinstance(e.slice, ast.Slice) and e.slice.lower is None \
+            and isinstance(e.slice.upper, ast.UnaryOp) and isinstance(e.slice.upper.op, ast.USub) and e.slice.step is None
+    src_ok = ok_flow = False
+    for g, call in region:
+        wr = [c for c in walk_no_nested(g.node) if isinstance(c, ast.Call) and isinstance(c.func, ast.Attribute) and c.func.attr == "writerow"]
+        if not wr or "csv.writer(" not in ast.unparse(g.node).replace(" ", ""):
+            continue
+        arg = wr[0].args[0] if wr[0].args else None
+        if not (isinstance(arg, ast.List) and len(arg.elts) == 1):
+            continue
+        cell = ast.unparse(arg.elts[0]).replace(" ", "")
+        if call is None:
+            src_ok = cell == "node.object"
+        else:
+            ps = [p_ for p_ in func_params(g.node) if p_ != "self"]
+            src_ok = cell in ps and ps.index(cell) < len(call.args) and ast.unparse(call.args[ps.index(cell)]).replace(" ", "") == "node.object"
+        # the text: BUF.getvalue(), shortened only by trailing slices, is what is written (or returned and then written)
+        gv = [a for a in walk_no_nested(g.node) if isinstance(a, ast.Assign) and isinstance(a.targets[0], ast.Name) and isinstance(a.value, ast.Call)
+              and isinstance(a.value.func, ast.Attribute) and a.value.func.attr == "getvalue"]
+        if not gv:
+            continue
+        v = gv[0].targets[0].id
+        others = [a.value for a in walk_no_nested(g.node) if isinstance(a, ast.Assign) and isinstance(a.targets[0], ast.Name)
+                  and a.targets[0].id == v and a is not gv[0]]
+        good_val = lambda e: dotted(e) == v or trailing_slice_of(e, v)
+        if not all(trailing_slice_of(o, v) for o in others):
+            continue
+        writes = [c for c in walk_no_nested(f.node) if isinstance(c, ast.Call) and isinstance(c.func, ast.Attribute)
+                  and c.func.attr == "write" and dotted(c.func.value) == "printer"]
+        if call is None:
+            ok_flow = len(writes) == 1 and good_val(writes[0].args[0])
+        else:
+            rets = [r_ for r_ in walk_no_nested(g.node) if isinstance(r_, ast.Return)]
+            ok_flow = bool(rets) and all(r_.value is not None and good_val(r_.value) for r_ in rets) \
+                and len(writes) == 1 and writes[0].args and writes[0].args[0] is call
     if src_ok and ok_flow:
         ctx.proved("E9-csv", f.file, "CSVFormatter.print_LeafNode", f.node, "csv leaf encoding",
                    "csv.writer quoting of [node.object]; only the trailing line terminator is removed")
